@@ -2,6 +2,7 @@
 spec: ServerBatch.tla (runner loop + fault scripts), Gen_ServerBatch (allowed outcome vectors per script)."""
 import json
 import os
+import sys
 import vf
 
 
@@ -47,10 +48,34 @@ def process_protocol(ctx, binp):
     ctx.notes["process_protocol"] = dict(kinds=kinds, observed=obs, allowed={k: sorted(v) for k, v in allowed.items()})
 
 
+ASSUMPTIONS = ["scripted process/client runner stand in for real peers (the client runner's own guarantees are C10)",
+                        "the 10 s serverResponseTimeout (server never answers) is not exercised",
+                        "noResult (client drained) and noOutcome (failRemaining) are the same observable error and are compared as one class"]
+RULE = ("every fault script for batches of N cases (N=2 quick; N=3 and 2 thorough): server fault kind x TLS x death position x "
+                       "sync/async death notice x per-case client answer (pass/mismatch/client error/empty/never) x sync/async callbacks x "
+                       "refusal position; TLC computes the set of outcome vectors the spec allows per script (several when the death "
+                       "notice races with the send loop); each script is run 3x as reference and non-reference server on the real "
+                       "runTestCasesForServer under -race; non-trivial = any fault or non-pass answer. Exhaustive for the stated N.")
+
+
 def run(ctx):
-    q = ctx.quick
     mc = ctx.tlc("ServerBatch", "MC_ServerBatch.cfg", timeout=1800)
     ctx.notes["mc_design"] = dict(distinct=mc.distinct, generated=mc.generated)
+    batch_leg(ctx, ctx.quick, True)
+    if not ctx.replay:
+        # ServerBatch.tla takes "reading the server's handshake response ends within the timeout, with the right
+        # classification" as given: that is Framing.tla's binding (quick bounds)
+        sys.path.insert(0, os.path.dirname(os.path.abspath(__file__)))
+        import c09
+        c09.replay_leg(ctx, True)
+    ctx.cov["exhaustive"] = True
+    ctx.cov["rule"] = RULE
+    ctx.assumptions += ASSUMPTIONS
+
+
+def batch_leg(ctx, q, with_process):
+    """every fault script of Gen_ServerBatch on the real runTestCasesForServer; the outcome vector must be one the
+    specification allows.  Also used by C04 (its verdict is over the outcomes this component records)."""
     g = ctx.tlc("Gen_ServerBatch", "Gen_ServerBatch_2.cfg" if q else "Gen_ServerBatch_3.cfg", timeout=1800)
     lines = g.json_lines("SCN ")
     if not q:
@@ -71,7 +96,7 @@ def run(ctx):
     scnp, outp = os.path.join(ctx.build, "c11.scn"), os.path.join(ctx.build, "c11.out")
     vf.write_ndjson(scnp, scns)
     binp = ctx.go_test_bin("internal/app/connectconformance", ["c11", "peers"], race=True)
-    if not ctx.replay:
+    if not ctx.replay and with_process:
         process_protocol(ctx, binp)
     p = ctx.run_harness(binp, "TestVerifC11Run", env=dict(VERIF_SCN=scnp, VERIF_OUT=outp, VERIF_REPS=3), timeout=3000, check=False)
     if "WARNING: DATA RACE" in p.stdout:
@@ -119,15 +144,6 @@ def run(ctx):
     ctx.cov["evaluations"] += sum(len(r["obs"]) for r in res)
     ctx.cov["traces_validated_against_impl"] += len(res)
     ctx.cov["distinct_nontrivial"] += len(nontrivial)
-    ctx.cov["exhaustive"] = True
     for k in keys[:: max(1, len(keys) // 3)][:3]:
         ctx.sample(dict(script=scripts[k]["script"], allowed=scripts[k]["allowed"]))
     ctx.notes["scripts"] = len(keys)
-    ctx.cov["rule"] = ("every fault script for batches of N cases (N=2 quick; N=3 and 2 thorough): server fault kind x TLS x death position x "
-                       "sync/async death notice x per-case client answer (pass/mismatch/client error/empty/never) x sync/async callbacks x "
-                       "refusal position; TLC computes the set of outcome vectors the spec allows per script (several when the death "
-                       "notice races with the send loop); each script is run 3x as reference and non-reference server on the real "
-                       "runTestCasesForServer under -race; non-trivial = any fault or non-pass answer. Exhaustive for the stated N.")
-    ctx.assumptions += ["scripted process/client runner stand in for real peers (the client runner's own guarantees are C10)",
-                        "the 10 s serverResponseTimeout (server never answers) is not exercised",
-                        "noResult (client drained) and noOutcome (failRemaining) are the same observable error and are compared as one class"]
